@@ -10,6 +10,8 @@
 //!   clone{a,b}          handle b = handle a .clone()
 //!   call{h}             handle h .call()
 //!   drop_handle{h}, drop_pkg{m}, drop_rt
+//!   add_const           Runtime::add of one more tracked constant LC (tag 100 * g) on the live
+//!                       runtime; scripts compiled afterwards read it (tag(RC) + tag(LC))
 //!   move{h}             handle h is moved to a new thread, called and dropped there
 //!   into_func{h,c}      closure c = handle h .into_func()  (the handle is consumed)
 //!   call_closure{c}, drop_closure{c}
@@ -22,14 +24,16 @@
 use std::collections::HashMap;
 use std::sync::atomic::{AtomicI64, AtomicU64, Ordering};
 
-use roto::{Context, Ctx, FileTree, Function, NoCtx, Package, Runtime, TypedFunc, Val, library, location};
+use roto::{Constant, Context, Ctx, FileTree, Function, NoCtx, Package, Runtime, TypedFunc, Val, library, location};
 use rvh::batch::{Progress, parse_args, run_batch};
 use serde_json::{Value, json};
 
 /// live instances per resource class:
 /// 0 = script constants of version 1, 1 = script constants of version 2,
-/// 2 = registered constant, 3 / 4 / 5 = state captured by the registered closure 1 / 2 / 3
-static LIVE: [AtomicI64; 6] = [
+/// 2 = registered constant, 3 / 4 / 5 = state captured by the registered closure 1 / 2 / 3,
+/// 6 = the late registered constant
+static LIVE: [AtomicI64; 7] = [
+    AtomicI64::new(0),
     AtomicI64::new(0),
     AtomicI64::new(0),
     AtomicI64::new(0),
@@ -56,7 +60,7 @@ impl Tk {
         Tk { class, tag, check: tag ^ MAGIC }
     }
     fn valid(&self) -> bool {
-        self.class < 3 && self.check == self.tag ^ MAGIC
+        (self.class < 3 || self.class == 6) && self.check == self.tag ^ MAGIC
     }
 }
 
@@ -138,7 +142,7 @@ fn make_next(c: Counter) -> impl Fn() -> u64 + Send + Sync + 'static {
 /// registered constant.  The result encodes (sum of script constant tags, registered
 /// constant tag, first counter, second counter) as
 /// k * 10^11 + rc * 10^8 + na * 10^4 + nb   (rc < 1000, na, nb < 10^4).
-fn script(v: u64, ctx: bool) -> String {
+fn script(v: u64, ctx: bool, late: bool) -> String {
     let s = match v {
         1 => {
             r#"
@@ -163,7 +167,9 @@ fn main() -> u64 {
         _ => panic!("unknown script version {v}"),
     };
     // with a context type the script also reads a context field (always 0)
-    if ctx { s.replace("fn main() -> u64 {", "fn main() -> u64 {\n    bias +") } else { s.to_string() }
+    // after the late constant was added the script reads it too
+    let s = if late { s.replace("tag(RC) * 100000000", "(tag(RC) + tag(LC)) * 100000000") } else { s.to_string() };
+    if ctx { s.replace("fn main() -> u64 {", "fn main() -> u64 {\n    bias +") } else { s }
 }
 
 /// The context type of the `ctx` flavour.
@@ -204,7 +210,8 @@ fn live() -> Value {
         LIVE[2].load(Ordering::SeqCst),
         LIVE[3].load(Ordering::SeqCst),
         LIVE[4].load(Ordering::SeqCst),
-        LIVE[5].load(Ordering::SeqCst)
+        LIVE[5].load(Ordering::SeqCst),
+        LIVE[6].load(Ordering::SeqCst)
     ])
 }
 
@@ -250,6 +257,8 @@ macro_rules! flavour {
                 let base = live();
                 let corrupt0 = CORRUPT.load(Ordering::SeqCst);
                 let mut rt: Option<Runtime<$ctx>> = None;
+                let mut gen_now = 0u64;
+                let mut late = false;
                 let mut pkgs: HashMap<u64, Package<$ctx>> = HashMap::new();
                 let mut hs: HashMap<u64, TypedFunc<$ctx, fn() -> u64>> = HashMap::new();
                 let mut cls: HashMap<u64, Box<dyn Fn() -> u64>> = HashMap::new();
@@ -264,11 +273,23 @@ macro_rules! flavour {
                             assert!(rt.is_none(), "harness: runtime already alive");
                             let mk: fn(u64) -> Runtime<$ctx> = $mkrt;
                             rt = Some(mk(n("g")));
+                            gen_now = n("g");
+                            late = false;
+                            Value::Null
+                        }
+                        "add_const" => {
+                            let r = rt.as_mut().expect("harness: add_const without runtime");
+                            r.add(
+                                Constant::new("LC", "a constant registered later", Val(Tk::new(6, 100 * gen_now)), location!())
+                                    .expect("late constant must be constructible"),
+                            )
+                            .expect("late constant must register");
+                            late = true;
                             Value::Null
                         }
                         "compile" => {
                             let r = rt.as_ref().expect("harness: compile without runtime");
-                            let pkg = FileTree::test_file("c11.roto", &script(n("v"), $isctx), 0)
+                            let pkg = FileTree::test_file("c11.roto", &script(n("v"), $isctx, late), 0)
                                 .compile(r)
                                 .map_err(|e| e.to_string())
                                 .expect("C11 script must compile");
